@@ -127,7 +127,7 @@ func genExprCase(t *rapid.T) exprCase {
 	var names []string
 	c.Equs, names = genEqus(t)
 	depth := rapid.IntRange(0, 4).Draw(t, "depth")
-	c.E1 = genExpr(t, names, c.Kind != "for", depth)
+	c.E1 = genExpr(t, names, true, depth)
 	if c.Kind == "operand" {
 		c.E2 = genExpr(t, names, true, rapid.IntRange(0, 3).Draw(t, "depth2"))
 	}
